@@ -86,3 +86,5 @@ package builtins
 // package are listed; each sorts the keys before anything observable depends on their order (encodeCsv: sort.Strings
 // on the next line). sorted(map) must obtain the keys through Map.Keys(), which sorts.
 //@ scan[C05.stringkeys.callers.builtins] C05 extcalls github.com/risor-io/risor/object.(*Map).StringKeys: encodeCsv
+
+//@ scan[C05.maploops.builtins] C05 maprange builtins:
